@@ -318,6 +318,12 @@ class Exec:
                 r = z3.BoolVal(x.name == y.name)
             elif is_z3(x) and is_z3(y):
                 r = x == y
+            elif isinstance(x.val if isinstance(x, Opt) else x, ObjV) and isinstance(y.val if isinstance(y, Opt) else y, ObjV) \
+                    and "__id__" in (x.val if isinstance(x, Opt) else x).fields and "__id__" in (y.val if isinstance(y, Opt) else y).fields:
+                # identity of objects that carry an identity field; None is identical to None only
+                xn, xv = (x.none, x.val) if isinstance(x, Opt) else (z3.BoolVal(False), x)
+                yn, yv = (y.none, y.val) if isinstance(y, Opt) else (z3.BoolVal(False), y)
+                r = z3.Or(z3.And(xn, yn), z3.And(z3.Not(xn), z3.Not(yn), xv.fields["__id__"] == yv.fields["__id__"]))
             else:
                 raise Unsupported(f"`is` on {x!r}, {y!r}")
             return r if isinstance(op, ast.Is) else z3.Not(r)
